@@ -60,7 +60,9 @@ class Ctx:
         self.tier = tier
         self.seed = seed
         self.replay = replay
-        self.rng = random.Random(seed * 1000003 + int(prop[1:]))
+        self.shard = os.environ.get("VERIF_SHARD")            # "i/K" in a child process of a sharded thorough run
+        shard_no = int(self.shard.split("/")[0]) if self.shard else 0
+        self.rng = random.Random(seed * 1000003 + int(prop[1:]) + 7919 * shard_no)
         self.work = os.path.join(VERIF, ".work", "%s-%d-%d" % (prop, os.getpid(), int(time.time() * 1000) % 100000))
         os.makedirs(self.work, exist_ok=True)
         self.t0 = time.time()
@@ -83,6 +85,13 @@ class Ctx:
 
     # ---- lean -------------------------------------------------------------------------------
     def setup_lean(self):
+        if self.shard:
+            # child of a sharded run: the parent has built and audited; only the driver is needed
+            self.theorems = leanio.obligations_for(self.prop)
+            if os.path.exists(leanio.DRIVER):
+                self.driver = leanio.Driver()
+            self.lean_ok = self.driver is not None
+            return
         ok, log, secs = leanio.build()
         self.extra["lake_build_s"] = round(secs, 1)
         problems = []
@@ -163,6 +172,12 @@ class Ctx:
 
     # ---- finish -----------------------------------------------------------------------------
     def finish(self, level, explanation, rule, assumptions=()):
+        if self.shard:
+            out = os.environ["VERIF_SHARD_OUT"]
+            json.dump(jsonable(dict(evaluations=self.evaluations, keys=sorted(self.keys), samples=self.samples, dist=dict(self.dist), maxima=self.maxima,
+                                    mismatches=self.mismatches, known_hits=dict(self.known_hits), notes=self.notes, extra=self.extra,
+                                    driver_requests=(self.driver.n if self.driver else 0), level=level, explanation=explanation, rule=rule)), open(out, "w"))
+            return 0
         violations = 0
         lines = []
         os.makedirs(os.path.join(VERIF, "replays"), exist_ok=True)
@@ -221,6 +236,46 @@ class Ctx:
         shutil.rmtree(self.work, ignore_errors=True)
 
 
+def run_sharded(ctx, prop, shards):
+    """thorough tier: the generated-case budget is spread over `shards` worker processes (each with its own derived PRNG stream, its own import of
+    /repo, its own model driver); the parent has built and audited the Lean side and merges what the workers explored"""
+    import subprocess
+    procs = []
+    for i in range(shards):
+        out = os.path.join(ctx.work, "shard-%d.json" % i)
+        env = dict(os.environ, VERIF_SHARD="%d/%d" % (i, shards), VERIF_SHARD_OUT=out, VERIF_SEED=str(ctx.seed))
+        procs.append((i, out, subprocess.Popen([sys.executable, os.path.abspath(__file__), prop, "--tier", "thorough"], env=env,
+                                               stdout=subprocess.PIPE, stderr=subprocess.STDOUT, text=True)))
+    level = explanation = rule = None
+    failed = []
+    for i, out, p in procs:
+        log, _ = p.communicate()
+        if p.returncode != 0 or not os.path.exists(out):
+            failed.append((i, (log or "")[-600:]))
+            continue
+        d = json.load(open(out))
+        ctx.evaluations += d["evaluations"]
+        ctx.keys.update(d["keys"])
+        ctx.samples = (ctx.samples + d["samples"])[:3]
+        for k, v in d["dist"].items():
+            ctx.dist[k] += v
+        for k, v in d["maxima"].items():
+            ctx.maxima[k] = max(ctx.maxima.get(k, v), v)
+        for m in d["mismatches"]:
+            m["case"] = dict(shard=i, case=m["case"])
+        ctx.mismatches += d["mismatches"]
+        for k, v in d["known_hits"].items():
+            ctx.known_hits[k] += v
+        ctx.notes += ["shard %d: %s" % (i, n) for n in d["notes"]][:3]
+        ctx.extra.setdefault("shards", {})[str(i)] = dict(evaluations=d["evaluations"], driver_requests=d["driver_requests"], extra=d["extra"])
+        level, explanation, rule = d["level"], d["explanation"], d["rule"]
+    if failed:
+        print("CHECK-ERROR property=%s shard(s) %s crashed: %s" % (prop, [i for i, _ in failed], failed[0][1]))
+        return 2
+    ctx.extra["sharded"] = "%d worker processes, PRNG stream of shard i = seed*1000003 + property number + 7919*i" % shards
+    return ctx.finish(level, explanation, rule)
+
+
 def main():
     ap = argparse.ArgumentParser()
     ap.add_argument("prop")
@@ -238,10 +293,14 @@ def main():
         print("REPLAY case=%s" % json.dumps(rp.get("case"))[:2000])
     ctx = Ctx(a.prop, tier, seed, a.replay)
     code = 2
+    shards = int(os.environ.get("VERIF_SHARDS", "8" if tier == "thorough" else "1"))
     try:
         ctx.setup_lean()
-        mod = importlib.import_module("props.%s" % a.prop.lower())
-        code = mod.run(ctx)
+        if tier == "thorough" and shards > 1 and not ctx.shard and not a.replay:
+            code = run_sharded(ctx, a.prop, shards)
+        else:
+            mod = importlib.import_module("props.%s" % a.prop.lower())
+            code = mod.run(ctx)
     except Exception:
         traceback.print_exc()
         print("CHECK-ERROR property=%s (harness failure, no verdict)" % a.prop)
